@@ -21,9 +21,9 @@ package ast
 //@ axiom wfAssignStmt(s *AssignStmt): WFNode(iface(s)) ==> s.Name != nil && WFN(s.Value)
 //@ axiom wfUseStmt(s *UseStmt): WFNode(iface(s)) ==> s.Name != nil && (s.Program != nil ==> WFNode(iface(s.Program)))
 //@ axiom wfReserveStmt(s *ReserveStmt): WFNode(iface(s)) ==> s.Name != nil && (s.Insert != nil ==> WFNode(iface(s.Insert)))
-//@ axiom wfInsertStmt(s *InsertStmt): WFNode(iface(s)) ==> (s.Block != nil ==> WFNode(iface(s.Block))) && (s.Argument != nil ==> WFNode(s.Argument))
-//@ axiom wfForStmt(s *ForStmt): WFNode(iface(s)) ==> (s.Init != nil ==> WFNode(s.Init)) && (s.Condition != nil ==> WFNode(s.Condition))
-//@      && (s.Post != nil ==> WFNode(s.Post)) && s.Block != nil && WFNode(iface(s.Block)) && (s.Alternative != nil ==> WFNode(iface(s.Alternative)))
+//@ axiom wfInsertStmt(s *InsertStmt): WFNode(iface(s)) ==> (s.Block != nil ==> WFNode(iface(s.Block))) && (s.Argument != nil ==> WFN(s.Argument))
+//@ axiom wfForStmt(s *ForStmt): WFNode(iface(s)) ==> (s.Init != nil ==> WFN(s.Init)) && (s.Condition != nil ==> WFN(s.Condition))
+//@      && (s.Post != nil ==> WFN(s.Post)) && s.Block != nil && WFNode(iface(s.Block)) && (s.Alternative != nil ==> WFNode(iface(s.Alternative)))
 //@ axiom wfEachStmt(s *EachStmt): WFNode(iface(s)) ==> s.Var != nil && WFN(s.Array) && s.Block != nil && WFNode(iface(s.Block))
 //@      && (s.Alternative != nil ==> WFNode(iface(s.Alternative)))
 //@ axiom wfBreakIfStmt(s *BreakIfStmt): WFNode(iface(s)) ==> WFN(s.Condition)
@@ -33,7 +33,7 @@ package ast
 //@ axiom wfSlotStmt(s *SlotStmt): WFNode(iface(s)) ==> s.Name != nil && (s.Body != nil ==> WFNode(iface(s.Body)))
 //@ axiom wfDumpStmt(s *DumpStmt): WFNode(iface(s)) ==> forall(k, 0, len(s.Arguments), WFN(s.Arguments[k]))
 //@ axiom wfIndexExp(x *IndexExp): WFNode(iface(x)) ==> WFN(x.Left) && WFN(x.Index)
-//@ axiom wfDotExp(x *DotExp): WFNode(iface(x)) ==> WFN(x.Left) && x.Key != nil && istype(x.Key, *Identifier)
+//@ axiom wfDotExp(x *DotExp): WFNode(iface(x)) ==> WFN(x.Left) && x.Key != nil && istype(x.Key, *Identifier) && refof(x.Key) != 0
 //@ axiom wfPrefixExp(x *PrefixExp): WFNode(iface(x)) ==> WFN(x.Right)
 //@ axiom wfTernaryExp(x *TernaryExp): WFNode(iface(x)) ==> WFN(x.Condition) && WFN(x.Consequence) && WFN(x.Alternative)
 //@ axiom wfInfixExp(x *InfixExp): WFNode(iface(x)) ==> WFN(x.Left) && WFN(x.Right)
